@@ -145,7 +145,7 @@ func propC10(w *World, r *Report, tier string) {
 					bad = true
 					r.Fail("eff.input-readonly", name, site.Fn+": "+site.What, site.Pos, "decode writes memory rooted at the input bytes ("+site.What+" in "+site.Fn+")", nil)
 				}
-				if root.Kind == "global" || root.Kind == "unknown" || root.Kind == "freevar" {
+				if root.Kind == "global" || root.Kind == "extglobal" || root.Kind == "unknown" || root.Kind == "freevar" {
 					bad = true
 					r.Fail("eff.input-readonly", name, root.String(), site.Pos, "decode writes "+root.String()+" ("+site.What+" in "+site.Fn+")", nil)
 				}
@@ -341,9 +341,9 @@ func propC19(w *World, r *Report, tier string) {
 				}
 				continue
 			}
-			if root.Kind == "unknown" || root.Kind == "freevar" {
+			if root.Kind == "unknown" || root.Kind == "freevar" || root.Kind == "extglobal" {
 				bad = true
-				r.Fail("eff.no-static", name, root.String(), site.Pos, "writes memory of unknown origin ("+site.What+")", nil)
+				r.Fail("eff.no-static", name, root.String(), site.Pos, "writes memory of unknown or foreign origin ("+site.What+")", nil)
 			}
 		}
 		for _, rt := range s.Retains {
